@@ -89,6 +89,20 @@ def run (args : List String) : String :=
       | _, _ => "bad-op"
     | none => "bad-op"
   | ["enc.fail", _] => "err"     -- a nil dynamic value has no encoding; a failed write is reported: nothing is kept (the encoder has no state)
+  | "enc.reflectp" :: sigh :: toks =>   -- Go's int and uint are the eight-byte integers of the layout
+    match parseHex sigh with
+    | some sig =>
+      match parseSig sig, parseTVal toks with
+      | .ok t, some (v, []) => "ok " ++ toHex (encR codecKinds t v)
+      | _, _ => "bad-op"
+    | none => "bad-op"
+  | ["dec.reflectp", sigh, datah] =>
+    match parseHex sigh, parseHex datah with
+    | some sig, some data =>
+      match parseSig sig with
+      | .ok t => resStr (decodeReflect t data) (fun p => s!"ok {renderD p.1} rest={p.2.length}")
+      | .error _ => "bad-op"
+    | _, _ => "bad-op"
   | "enc.reflect" :: sigh :: toks =>
     match parseHex sigh with
     | some sig =>
